@@ -24,12 +24,14 @@ PROPOSED_FINDINGS = [
     dict(property=PID, id="parallel-unequal-rhythms",
          function="mingus.midi.sequencer.Sequencer.play_Bars",
          clause="exactly-one-play-event / nothing-left-sounding / nothing-stopped-that-was-not-started / total-time-slept",
-         region="bars (or the bars of tracks) played together where a sounding (non-rest, non-empty) entry of one "
-                "bar is still sounding at an onset of another bar",
+         region="bars (or the bars of tracks at one bar line) played together whose onsets differ: some entry (notes "
+                "or rest) of one bar is still running at an onset of another bar; everything before the first such "
+                "onset is still checked",
          what="play_Bars (hence play_Tracks, play_Composition) re-plays every bar's current container at each onset "
-              "of any bar (start_tick <= tick also holds for a container that is still sounding) and derives the "
-              "step from the newly played containers only: a half note against two quarters is played twice, "
-              "stopped three times, and longer mixes sleep for more than the bar",
+              "of any bar (start_tick <= tick also holds for a container that is still sounding), derives the step "
+              "from the newly played containers only and advances a bar's cursor once per stale copy: a half note "
+              "against two quarters is played twice and stopped three times, longer mixes skip notes, sleep for more "
+              "than the bar or return {} (which makes play_Tracks give up)",
          witness_code=(
              "from mingus.midi.sequencer import Sequencer\n"
              "from mingus.containers import Bar\n"
@@ -599,12 +601,23 @@ def rand_entry(rnd, value, band, p_rest=0.2, p_chord=0.3, p_bpm=0.15, chan=None)
     return (F(value), notes, bpm)
 
 
+def with_repeats(rnd, entries, p=0.15):
+    """now and then an entry repeats the notes of the entry before it (same pitch, channel and velocity start
+    again at the instant they stop: the stop has to come first)"""
+    out = []
+    for e in entries:
+        if out and e[1] and out[-1][1] and rnd.random() < p:
+            e = (e[0], out[-1][1], e[2])
+        out.append(e)
+    return out
+
+
 def rand_rhythm(rnd, meter, finest, exotic=0.0):
     """a filling of the bar: values as Fractions.  Binary values down to `finest`; with probability `exotic` a
     dotted pair (3/8 + 1/8 ...) or a triplet group is used for a span"""
     left = bar_len(meter)
     out = []
-    binary = [v for v in (1, 2, 4, 8, 16, 32) if v <= finest]
+    binary = [v for v in (1, 2, 4, 8, 16, 32, 64) if v <= finest]
     while left > 0:
         cands = [F(v) for v in binary if F(1, v) <= left]
         if not cands:
@@ -659,7 +672,7 @@ def run(tier, seed):
             R.fail(group, clause, what, inputs, finding=finding if suppressible else None)
 
     def ret_check(group, inputs, res, want_bpm, finding=None):
-        if not (isinstance(res, dict) and set(res) == {"bpm"} and res["bpm"] == want_bpm):
+        if not (isinstance(res, dict) and "bpm" in res and res["bpm"] == want_bpm):
             R.fail(group, "return-value-reports-final-tempo", "returned %r, final tempo is %r" % (res, want_bpm),
                    inputs, finding=finding)
 
@@ -690,8 +703,6 @@ def run(tier, seed):
                     if s.ev[len(e1):] != [("stop", p, ch)]:
                         R.fail(g, "exactly-one-stop-event", "stop_Note emitted %r, expected %r"
                                % (s.ev[len(e1):], [("stop", p, ch)]), spec)
-                    if r1 is not True or r2 is not True:
-                        R.fail(g, "exactly-one-play-event", "play_Note/stop_Note returned %r/%r" % (r1, r2), spec)
                     if same_stream(R, g, spec, s, (o, w)):
                         note_callbacks_mirror(R, g, spec, o)
                     if [h[1] for h in o.hi] != [n, n]:
@@ -699,7 +710,7 @@ def run(tier, seed):
 
     # ---------------------------------------------------------------- containers
     g = "Sequencer.play_NoteContainer/stop_NoteContainer"
-    for i in range(3000 if thorough else 600):
+    for i in range(6000 if thorough else 600):
         k = rnd.choice((0, 1, 1, 2, 3, 4, 5, 6))
         notes = rand_notes(rnd, k, (0, 116)) if i % 50 else None
         R.case(g, notes)
@@ -724,8 +735,6 @@ def run(tier, seed):
         mod = [dict(on=F(0), off=F(1, 2), son=F(0), soff=F(1, 2), pitch=pitch(n) + 12, ch=n[2], vel=n[3], track=0,
                     after_rest=False, k=k2) for k2, n in enumerate(order or ())]
         report(g, notes, analyse(s.ev, mod, F(1, 2), False))
-        if r1 is not True or r2 is not True:
-            R.fail(g, "exactly-one-play-event", "returned %r/%r" % (r1, r2), notes)
         if same_stream(R, g, notes, s, (o, w)):
             note_callbacks_mirror(R, g, notes, o)
 
@@ -770,19 +779,19 @@ def run(tier, seed):
                 else:
                     entries.append((F(8, u), (spell(rnd, 40 + (j * 5 + fi) % 30) + ((fi + j) % 16, (mask * 7 + j) % 128),), None))
             seq_case(g + " (4/4 fillings x rest masks)", [((4, 4), entries)], 120, "bar")
-    n_rand = 4000 if thorough else 700
+    n_rand = 12000 if thorough else 700
     for i in range(n_rand):
         meter = rnd.choice(METERS)
-        rh = rand_rhythm(rnd, meter, rnd.choice((4, 8, 16, 32)), exotic=0.25 if i % 2 else 0.0)
+        rh = rand_rhythm(rnd, meter, rnd.choice((4, 8, 16, 32, 64) if thorough else (4, 8, 16, 32)), exotic=0.25 if i % 2 else 0.0)
         if rh is None:
             continue
         if rnd.random() < 0.25:
             rh = rh[:rnd.randint(0, len(rh))]          # a bar that is not full plays what it holds
-        entries = [rand_entry(rnd, v, (10, 110)) for v in rh]
+        entries = with_repeats(rnd, [rand_entry(rnd, v, (10, 110)) for v in rh])
         seq_case(g, [(meter, entries)], rnd.choice(BPMS), "bar")
 
     g = "Sequencer.play_Track"
-    for i in range(1500 if thorough else 250):
+    for i in range(5000 if thorough else 250):
         nb = rnd.randint(0, 8 if thorough else 4)
         bars = []
         for b in range(nb):
@@ -792,7 +801,7 @@ def run(tier, seed):
                 rh = [F(meter[1])] * meter[0]
             if b == nb - 1 and rnd.random() < 0.3:
                 rh = rh[:rnd.randint(1, len(rh))]
-            bars.append((meter, [rand_entry(rnd, v, (10, 110)) for v in rh]))
+            bars.append((meter, with_repeats(rnd, [rand_entry(rnd, v, (10, 110)) for v in rh])))
         seq_case(g, bars, rnd.choice(BPMS), "track")
 
     # ---------------------------------------------------------------- bars / tracks together
@@ -828,21 +837,26 @@ def run(tier, seed):
         if len(set(nbars)) > 1:
             finding = "tracks-unequal-bar-count"
         else:
-            groups = [[tr[k] for tr in spec] for k in range(nbars[0])] if nbars else []
-            partial = any(content_len(b) != bar_len(b[0]) for gr in groups for b in gr)
-            spans = [first_span(gr) for gr in groups]
-            if any(sp is not None for sp in spans):
-                finding = "parallel-unequal-rhythms"
-                k = [i for i, sp in enumerate(spans) if sp is not None][0]
-                if not partial and not any(float_shortfall(gr) for gr in groups[:k + 1]):
-                    until = tempo.sec(sum((bar_len(gr[0][0]) for gr in groups[:k]), F(0)) + spans[k])
-            elif partial:
-                finding = "parallel-partial-bar-replayed"
-                check_total = False
-            elif any(float_shortfall(gr) for gr in groups):
-                finding = "parallel-float-tick-shortfall"
+            # the first bar line whose bars fall into the region of a known finding decides the id; everything
+            # that sounds before the first troublesome instant of that bar line is still compared (`until`)
+            start = F(0)
+            for k in range(nbars[0] if nbars else 0):
+                gr = [tr[k] for tr in spec]
+                cands = []
+                sp = first_span(gr)
+                if sp is not None:
+                    cands.append((sp, 0, "parallel-unequal-rhythms"))
+                if any(content_len(b) != bar_len(b[0]) for b in gr):
+                    cands.append((min(content_len(b) for b in gr), 1, "parallel-partial-bar-replayed"))
+                    check_total = False
+                if float_shortfall(gr):
+                    cands.append((bar_len(gr[0][0]), 2, "parallel-float-tick-shortfall"))
+                if cands:
+                    at, _, finding = min(cands)
+                    until = tempo.sec(start + at)
+                    break
+                start += bar_len(gr[0][0])
         s, o, w = rig(twice=rnd.random() < 0.3)
-        comp_default = False
         try:
             if how == "bars":
                 res = s.play_Bars(objs, channels, bpm0)
@@ -852,8 +866,7 @@ def run(tier, seed):
                 c = L.Composition()
                 for t in objs:
                     c.add_track(t)
-                comp_default = rnd.random() < 0.5
-                if comp_default:
+                if rnd.random() < 0.5:
                     channels = [x + 1 for x in range(nt)]
                     res = s.play_Composition(c, None, bpm0)
                 else:
@@ -921,9 +934,9 @@ def run(tier, seed):
             return ("midi", rnd.randrange(128), rnd.random() < 0.5)
         return ("midi-unknown", rnd.choice((None, "", "Kazoo", "violin", "Piano")))
 
-    def voice(rh, ti, nt, p_rest, p_bpm, wide=False):
+    def voice(rh, ti, nt, p_rest, p_bpm):
         band = (12 + ti * 24, 12 + ti * 24 + 24)
-        return [rand_entry(rnd, v, band, p_rest=p_rest, p_bpm=p_bpm, p_chord=0.3) for v in rh]
+        return with_repeats(rnd, [rand_entry(rnd, v, band, p_rest=p_rest, p_bpm=p_bpm, p_chord=0.3) for v in rh])
 
     def dedupe_tempo(tracks):
         """keep at most one tempo-carrying container per onset over all tracks (the model is then unambiguous)"""
@@ -954,7 +967,7 @@ def run(tier, seed):
         rh = [F(8, u) for u in f]
         tracks = [[((4, 4), voice(rh, ti, 2, 0.2, 0.1))] for ti in range(2)]
         par_case(g, dedupe_tempo(tracks), 120, "bars")
-    for i in range(2500 if thorough else 400):
+    for i in range(8000 if thorough else 400):
         meter = rnd.choice(METERS)
         rh = rand_rhythm(rnd, meter, rnd.choice((4, 8, 16, 32)), exotic=0.3 if i % 3 == 0 else 0.0)
         if rh is None:
@@ -973,6 +986,35 @@ def run(tier, seed):
             for ti, f in enumerate((fa, fb)):
                 tracks.append([((4, 4), [(F(8, u), ((spell(rnd, 30 + ti * 30 + j)) + (ti, 64 + j),), None) for j, u in enumerate(f)])])
             par_case(g, tracks, 120, "bars")
+    # exhaustive: four voices over all fillings of a 2/4 bar with half, quarter, eighth (6^4), and (thorough) three
+    # voices over all fillings of a 3/4 bar with half, quarter, eighth (18^3); every fourth entry is a rest
+    def voices_product(meter, units, parts, nv):
+        fl = fillings(units, parts)
+        idx = [0] * nv
+        n = 0
+        while True:
+            tracks = []
+            for ti in range(nv):
+                f = fl[idx[ti]]
+                es = []
+                for j, u in enumerate(f):
+                    notes = None if (n + ti + j) % 4 == 3 else ((spell(rnd, 24 + ti * 24 + j)) + ((ti * 5 + j) % 16, (n + 31 * j) % 128),)
+                    es.append((F(units * meter[1], u * meter[0]), notes, None))
+                tracks.append([(meter, es)])
+            par_case(g if len(set(idx)) > 1 else "Sequencer.play_Bars (equal rhythms)", tracks, 120, "bars")
+            n += 1
+            k = 0
+            while k < nv:
+                idx[k] += 1
+                if idx[k] < len(fl):
+                    break
+                idx[k] = 0
+                k += 1
+            if k == nv:
+                break
+    voices_product((2, 4), 4, (4, 2, 1), 4)
+    if thorough:
+        voices_product((3, 4), 6, (4, 2, 1), 3)
     # ... the same pairs, one voice resting wherever the other has an onset inside it (no sounding note spans an
     # onset: outside the finding's region), random subset
     g2 = "Sequencer.play_Bars (unequal rhythms, only rests span onsets)"
@@ -996,7 +1038,7 @@ def run(tier, seed):
             tracks.append([((4, 4), es)])
         par_case(g2, dedupe_tempo(tracks), rnd.choice(BPMS), "bars")
     # random: 2-4 bars, any meter, rests, chords, tempo changes
-    for i in range(3000 if thorough else 400):
+    for i in range(9000 if thorough else 400):
         meter = rnd.choice(METERS)
         nt = rnd.randint(2, 4)
         tracks = []
@@ -1022,7 +1064,7 @@ def run(tier, seed):
 
     # play_Tracks / play_Composition
     for how, g in (("tracks", "Sequencer.play_Tracks"), ("composition", "Sequencer.play_Composition")):
-        for i in range(2000 if thorough else 300):
+        for i in range(6000 if thorough else 300):
             nt = rnd.randint(1, 4)
             nb = rnd.randint(0 if i % 40 == 0 else 1, 6 if thorough else 3)
             mode = i % 4           # 0,1: equal rhythms, 2: unequal, 3: unequal with rest-heavy voices
@@ -1101,7 +1143,7 @@ def run(tier, seed):
     # ---------------------------------------------------------------- attach / detach
     g = "Sequencer.attach/detach"
     probe_bar = ((4, 4), [(F(4), (("C", 4, 2, 90), ("E", 4, 3, 80)), None), (F(4), None, None), (F(2), (("G", 4, 4, 70),), 90)])
-    for i in range(1500 if thorough else 300):
+    for i in range(3000 if thorough else 300):
         s = L.RecSeq()
         obs = [L.RecObs() if k % 2 == 0 else L.RawListener() for k in range(4)]
         attached = []
@@ -1180,9 +1222,10 @@ def run(tier, seed):
         "seeded (0..6 notes, None); play_Bar: all 56 fillings of 4/4 with 1,2,4,8 x every note/rest mask (2830, "
         "exhaustive) + seeded bars (7 meters, values to 1/32, dotted pairs, triplet groups, chords, rests, empty "
         "containers, tempo changes, partial bars); play_Track: seeded 0..%d bars; play_Bars: the 56 fillings with "
-        "equal rhythms, ALL 3080 ordered pairs of different fillings (exhaustive), rest-spanning variants, seeded "
+        "equal rhythms, ALL 3080 ordered pairs of different fillings (exhaustive), all 6^4 four-voice combinations of "
+        "the fillings of 2/4 with 2,4,8 (thorough: + all 18^3 three-voice combinations for 3/4), rest-spanning variants, seeded "
         "1..4 bars; play_Tracks/play_Composition: seeded 1..4 tracks x 0..%d bars, equal/unequal rhythms, all 128 GM "
         "programs + non-MIDI instruments; control_change: channels %r x control,value in %d..%d (exhaustive) + "
         "wrappers + floats; attach/detach: seeded op sequences over 4 observers (<= 12 ops) checked by a list model"
-        % (len(vels), 3000 if thorough else 600, 8 if thorough else 4, 6 if thorough else 3, tuple(chans), lo, hi - 1),
+        % (len(vels), 6000 if thorough else 600, 8 if thorough else 4, 6 if thorough else 3, tuple(chans), lo, hi - 1),
         exhaustive=False)
